@@ -230,7 +230,10 @@ class ListingToTokenizedBasicConverter:
         for char in line:
             charBytes = bytes(char, "utf-8")
             if char == '"':
-                tokenizer.commit()
+                if isInLiteralString:
+                    tokenizer.commit()
+                else:
+                    tokenizer.commitAsToken()
                 isInLiteralString = not isInLiteralString
                 if isInLiteralString:
                     tokenizer.appendAsLitteral(char)
@@ -249,6 +252,8 @@ class ListingToTokenizedBasicConverter:
             char = char.upper()
             charBytes = bytes(char, "utf-8")
             tokenizer.appendAsToken(char)
+        if not isInLiteralString:
+            tokenizer.commitAsToken()
 
     def convert(self, f, bas):
         lines = f.readlines()
